@@ -726,6 +726,29 @@ def check_C19(ctx, replay=None):
             if not res.startswith("OK"):
                 bad("the control build (linux/386) does not compile policy #%d of harness/tableless: %s" % (i, res), target="linux/386", policy_index=i, result=res)
                 break
+    # a policy compiles to the same program wherever it is compiled: the same policies through a linux/386 build and the
+    # host build, each with the byte order the library determines for itself, against the extracted model
+    from corechecks import policy_stream, report_case_failures
+    cross = {}
+    for ga in ("386", None):
+        res = policy_stream(ctx, "C19", ["single_cond", "cond", "names", "mixed"], 60 if q else 600, 10, goarch=ga, native_endian=True, salt=19,
+                            replay=replay if replay and replay.get("case") and replay.get("goarch") == (ga or "host") else None)
+        if replay and replay.get("case") and replay.get("goarch") != (ga or "host"):
+            continue
+        if res is None:
+            continue
+        before = len(ctx.violations)
+        nd, nb = report_case_failures(ctx, res["cases"], "policies compiled by a %s build with the byte order the library determines itself (C19)" % ("linux/386" if ga else "host"),
+                                      describe=lambda cid: dict(res["meta"].get(cid) or {}, goarch=ga or "host"))
+        for path, _ in ctx.violations[before:]:
+            with open(path) as f:
+                body = json.load(f)
+            body["goarch"] = ga or "host"
+            with open(path, "w") as f:
+                json.dump(body, f, indent=1, sort_keys=True)
+                f.write("\n")
+        nbad += nb
+        cross[ga or "host"] = int(res["summary"]["cases"])
     # translator cross-check: the running (host) build's constants vs the regenerated record of the host target
     r = ctx.run_harness(["consts"], "")
     host = {}
@@ -775,8 +798,8 @@ def check_C19(ctx, replay=None):
                 bad("the module does not build (or vet) for this target", target="%s/%s" % ga, log=err)
     ctx.coverage.update(dict(
         evaluations=len(targets) * (len(UAPI) + 3) + built, distinct_nontrivial=len(targets),
-        rule="every GOOS/GOARCH pair of `go tool dist list` (%d): package seccomp type-checked under that build context by the translator, its constants as go/constant evaluates them compared with the kernel UAPI values (vendored, and re-read from /usr/include when present), loader file selection and stub bodies inspected; go build for %s; the running build's constants compared with the regenerated host record; 84 policies (empty groups, names, conditions, every default action) compiled through the public API in a js/wasm build run by node (every one must fail) and in a 386 build (every one must compile); non-trivial = targets judged" % (len(targets), "six representative targets" if q else "every target (plus go vet)"),
-        traces_validated_against_impl=ncorr, tableless_runtime=dict(skipped=tl.get("skipped")) if tl.get("skipped") else dict(js_wasm_policies=len(tl["wasm"]), control_386_policies=len(tl["control"])), targets_built=built - len(skipped), targets_not_buildable_without_cgo=skipped, counterexamples=nbad, exhaustive=True,
+        rule="every GOOS/GOARCH pair of `go tool dist list` (%d): package seccomp type-checked under that build context by the translator, its constants as go/constant evaluates them compared with the kernel UAPI values (vendored, and re-read from /usr/include when present), loader file selection and stub bodies inspected; go build for %s; the running build's constants compared with the regenerated host record; generated policies compiled by a linux/386 build and by the host build, byte order as the library determines it, compared instruction by instruction with the extracted model; 84 policies (empty groups, names, conditions, every default action) compiled through the public API in a js/wasm build run by node (every one must fail) and in a 386 build (every one must compile); non-trivial = targets judged" % (len(targets), "six representative targets" if q else "every target (plus go vet)"),
+        traces_validated_against_impl=ncorr, programs_compared_per_build=cross, tableless_runtime=dict(skipped=tl.get("skipped")) if tl.get("skipped") else dict(js_wasm_policies=len(tl["wasm"]), control_386_policies=len(tl["control"])), targets_built=built - len(skipped), targets_not_buildable_without_cgo=skipped, counterexamples=nbad, exhaustive=True,
         input_distribution=dict(targets=len(targets), linux=sum(1 for t in targets if t["goos"] in ("linux", "android")),
                                 with_tables=sum(1 for t in targets if t["goarch"] in ("386", "amd64", "arm", "arm64")),
                                 enosys_values=sorted(set(t["vals"].get("errnoENOSYS") for t in targets))),
